@@ -70,7 +70,8 @@ def fresh_vars(an, f):
 
 
 def simulate(an, f, path, in_smartlist):
-    st = TreeState(path_facts(path))
+    ax = an.alias_expander(f)
+    st = TreeState(path_facts(path, expand=lambda t, n: ax.expand(t, n)))
     st.fresh_objs = set()
     me = f.params[0] if f.params else "self"
     pending_add = []
